@@ -121,6 +121,11 @@ def _execute_one(doc: dict, name: str) -> dict:
         core.bump(res["probes"], "constructor_accepted_candidate")
     W, H = int(inst.bin_width), int(inst.bin_height)
     items = [[int(v) for v in row] for row in inst]
+    if doc["inst"].get("caller"):
+        # judged against what was handed to the constructor, not against an
+        # instance that may share the caller's (re-used) buffer
+        core.bump(res["faults"], "caller_reuses_item_matrix")
+        items = [[int(v) for v in row] for row in doc["inst"]["items"]]
     n_items = int(inst.n_items)
     info = np.iinfo(inst.dtype)
     lo, hi = int(info.min), int(info.max)
